@@ -10,7 +10,7 @@ import vlib
 # ---- tier constants -------------------------------------------------------------------------
 K_MODEL = {"quick": dict(MaxN=3, Coords="{0, 1, 2}", Dim=2, NMeth=5), "thorough": dict(MaxN=4, Coords="{0, 1, 2}", Dim=2, NMeth=5)}
 K_GEN = {"quick": dict(MaxN2=4, MaxN1=4, MaxN3=3, Stride=3), "thorough": dict(MaxN2=5, MaxN1=5, MaxN3=4, Stride=1)}
-K_INVS = ["InvSym", "InvGaussDiag", "InvGaussRange", "InvGaussMono", "InvGaussPSD", "InvLinearPSD", "InvPolyLinear",
+K_INVS = ["InvFrac", "InvSym", "InvGaussDiag", "InvGaussRange", "InvGaussMono", "InvGaussPSD", "InvLinearPSD", "InvPolyLinear",
           "InvPatFull", "InvPatMin", "InvPatUnique", "InvPatOneSided", "InvPatKPlus", "InvViews"]
 K_TRACE_CONST = dict(MaxN=0, Coords="{}", Dim=0, NMeth=0)
 
@@ -21,14 +21,16 @@ H_INVS = ["InvPartition", "InvCount", "InvMonotone", "InvNumDone", "InvDistDone"
           "InvCompleteDiam", "InvWeak", "InvLive"]
 H_TRACE_CONST = dict(MaxN=0, Vals="{}")
 
-METHODS = [
-    {"name": "linear", "en": 1, "ed": 1, "c": 0, "d": 1},
-    {"name": "gauss", "en": 1, "ed": 2, "c": 0, "d": 0},
-    {"name": "poly", "en": 1, "ed": 1, "c": 1, "d": 2},
-    {"name": "gauss", "en": 1, "ed": 1, "c": 0, "d": 0},
-    {"name": "gauss", "en": 4, "ed": 1, "c": 0, "d": 0},
-    {"name": "poly", "en": 1, "ed": 1, "c": 2, "d": 3},
-    {"name": "gauss", "en": 5, "ed": 2, "c": 0, "d": 0},
+METHODS = [           # degree = d/dd
+    {"name": "linear", "en": 1, "ed": 1, "c": 0, "d": 1, "dd": 1},
+    {"name": "gauss", "en": 1, "ed": 2, "c": 0, "d": 0, "dd": 1},
+    {"name": "poly", "en": 1, "ed": 1, "c": 1, "d": 2, "dd": 1},
+    {"name": "gauss", "en": 1, "ed": 1, "c": 0, "d": 0, "dd": 1},
+    {"name": "poly", "en": 1, "ed": 1, "c": 1, "d": 3, "dd": 2},
+    {"name": "gauss", "en": 4, "ed": 1, "c": 0, "d": 0, "dd": 1},
+    {"name": "poly", "en": 1, "ed": 1, "c": 2, "d": 3, "dd": 1},
+    {"name": "poly", "en": 1, "ed": 1, "c": 0, "d": 1, "dd": 2},
+    {"name": "gauss", "en": 5, "ed": 2, "c": 0, "d": 0, "dd": 1},
 ]
 EXACT_LINKS = ["single", "complete", "average", "weighted"]
 OTHER_LINKS = ["ward", "centroid", "median"]
@@ -45,8 +47,8 @@ def random_kernel_cases(ctx, count):
         pts = [[r.randint(0, hi) for _ in range(dim)] for _ in range(n)]
         k = r.choice([0, 1, 2, n - 1, r.randint(1, n - 1), r.randint(1, n - 1)])
         meth = dict(r.choice(METHODS))
-        while meth["name"] == "poly" and meth["d"] > 1 and (hi * hi * dim + meth["c"]) ** meth["d"] > 1000:
-            meth["d"] -= 1           # keep every sum of (dot+c)^d * 10^4 inside TLC's 32-bit integers
+        while meth["name"] == "poly" and meth["d"] > meth["dd"] and (hi * hi * dim + meth["c"]) ** (meth["d"] / meth["dd"]) > 1000:
+            meth["d"] -= meth["dd"]  # keep every sum of (dot+c)^d * 10^4 inside TLC's 32-bit integers (coordinates >= 0: base >= 0)
         rhs = [[r.randint(-2, 2), r.randint(-2, 2)] for _ in range(n)]
         pd = r.choice([1, 1, 2])
         out.append({"kind": "kernel", "inp": {"pts": pts, "meth": meth, "k": k, "rhs": rhs, "pd": pd}})
@@ -66,7 +68,7 @@ def random_hier_cases(ctx, count):
     Values are drawn from wide ranges (few ties) so that the merge search stays small."""
     out = []
     r = ctx.rng
-    none = {"name": "none", "en": 1, "ed": 1, "c": 0, "d": 0}
+    none = {"name": "none", "en": 1, "ed": 1, "c": 0, "d": 0, "dd": 1}
     for _ in range(count):
         if r.random() < 0.6:
             n = r.randint(5, 8)
@@ -95,7 +97,7 @@ def random_hier_cases(ctx, count):
             hs = sorted(r.sample(range(0, maxd + 2), 4))
             hs = [h for h in hs if not (135 * 101 * en < 10 * (101 * h + 37) < 141 * 101 * en)]
             out.append({"kind": "hier", "inp": {"src": "pts", "dk": [], "qd": 1, "pts": pts, "pd": 1,
-                                                 "meth": {"name": "gauss", "en": en, "ed": ed, "c": 0, "d": 0}, "link": link,
+                                                 "meth": {"name": "gauss", "en": en, "ed": ed, "c": 0, "d": 0, "dd": 1}, "link": link,
                                                  "f32": r.random() < 0.25, "crits": hier_crits(n, hs, en)}})
     return out
 
